@@ -285,9 +285,9 @@ func c19(p *P) {
 				callResult("signature equal", "bytes.Equal", "", -1, avFalse),
 				errFails("delta applies", "certs.ApplyPowerTableDiffs", ""),
 				errFails("next table CID computable", "certs.MakePowerTableCID", ""),
-				callResult("delta yields the committed table", "github.com/ipfs/go-cid.Cid.Equals", "", -1, avFalse))
+				union(callResult("", "github.com/ipfs/go-cid.Cid.Equals", "", -1, avFalse), cmpRel("", `\.PowerTable$`, `^certs\.MakePowerTableCID\(.*\)#0$`, RelNE)).named("delta yields the committed table"))
 			// … and it is added only AFTER the checks of its own iteration (not before them)
-			for _, chk := range []string{"certchain.CertChain.getSupplementalData", "gpbft.SupplementalData.Eq", "certchain.CertChain.GetCommittee", "certchain.CertChain.sign", "bytes.Equal", "certs.ApplyPowerTableDiffs", "certs.MakePowerTableCID", "github.com/ipfs/go-cid.Cid.Equals"} {
+			for _, chk := range []string{"certchain.CertChain.getSupplementalData", "gpbft.SupplementalData.Eq", "certchain.CertChain.GetCommittee", "certchain.CertChain.sign", "bytes.Equal", "certs.ApplyPowerTableDiffs", "certs.MakePowerTableCID"} {
 				short := chk[strings.LastIndex(chk, ".")+1:]
 				p.before("C19.R3", va, "check "+short, callSinks(va, "check "+short, chk), "look-back list append", apps)
 			}
